@@ -1058,6 +1058,29 @@ def geometry_script(rng, path, wal=0):
     L = ["open %s %d 0 1 0" % (path, wal), "db 0 1 000"]
     for i in list(range(0, 32)) + list(range(100, 132)):
         L.append("put 0 %s 0 %s 0 0" % (K(i), hexb(rng.bytes(rng.choice([1, 8, 30])))))
+    if rng.chance(1, 4):
+        # a single-record node between the two full ones: [A: 32][k050][B: 32]; it is removed through a cursor or by key,
+        # cursors sit on it and on both neighbours, every scan continues in both directions
+        L.append("level %d" % rng.choice([0, 0, 1]))
+        L.append("put 0 %s 0 %s 0 0" % (K(50), hexb(rng.bytes(3))))
+        L += ["copen 0 0 5 %s 0" % K(50), "cget 0", "copen 1 0 5 %s 0" % K(100), "cget 1", "copen 2 0 5 %s 0" % K(31), "cget 2",
+              "copen 3 0 5 %s 0" % K(50), "cget 3"]
+        how = rng.choice(["cdel", "cdel", "del"])
+        L.append("cdel 0" if how == "cdel" else "del 0 %s 0" % K(50))
+        if rng.chance(1, 3):
+            L.append("put 0 %s 0 %s 0 0" % (K(rng.choice([50, 60, 40])), hexb(rng.bytes(2))))
+        for c in range(4):
+            mv = rng.choice([3, 4, 4])
+            for _ in range(rng.choice([1, 2, 3, 35])):
+                L.append("cto %d %d" % (c, mv))
+                L.append("cget %d" % c)
+            mv = 7 - mv
+            for _ in range(rng.choice([1, 3])):
+                L.append("cto %d %d" % (c, mv))
+                L.append("cget %d" % c)
+            L.append("cpeek %d" % c)
+        L += ["dump 0", "rdump 0", "struct 0", "close"]
+        return L, {"modes": ["000"], "wal": wal}
     node = rng.choice(["A", "B"])
     base = 100 if node == "A" else 0
     slot_key = lambda sl: base + 31 - sl          # key index at slot sl of the chosen node
